@@ -61,10 +61,14 @@ def run_fcase(case, seed=0, replay_dir=None, known=None):
             if bad:
                 res["errors"].append(f"multiplication/division lemmas not discharged: {bad}")
         # reachability twin: the precondition and contracts are satisfiable
-        r, m = fdom.check(base, 60000)
-        res["twins"] = {"precondition_sat": r}
-        if r != "sat":
-            res["errors"].append(f"vacuity guard: precondition/contracts not satisfiable ({r})")
+        pre_text = None
+        if getattr(case, "z3_first_ms", 8000) == 0 and fdom.have_cvc5():
+            pre_text = fdom.smt2_text(base)  # decided together with the obligations below (same pool, same budget)
+        else:
+            r, m = fdom.check(base, 60000)
+            res["twins"] = {"precondition_sat": r}
+            if r != "sat":
+                res["errors"].append(f"vacuity guard: precondition/contracts not satisfiable ({r})")
         # translator validation on the hostile library (where the case can pin the havocked values)
         nval = 0
         worst = 0
@@ -106,9 +110,20 @@ def run_fcase(case, seed=0, replay_dir=None, known=None):
                 t0_ = time.time()
                 return fdom.run_cvc5(txt, int(case.timeout_s * 1000)), None, time.time() - t0_
             with _cf.ThreadPoolExecutor(max_workers=int(os.environ.get("VERIF_F_WORKERS", "6"))) as pool:
-                answers = list(pool.map(_cv, texts))
+                answers = list(pool.map(_cv, texts + ([pre_text] if pre_text is not None else [])))
+            if pre_text is not None:
+                r_pre = answers.pop()[0]
+                res["twins"] = {"precondition_sat": r_pre}
+                if r_pre != "sat":
+                    res["errors"].append(f"vacuity guard: precondition/contracts not satisfiable ({r_pre})")
+                pre_text = None
         else:
             answers = [_one(q) for q in queries]
+        if pre_text is not None:
+            r_pre = fdom.run_cvc5(pre_text, int(case.timeout_s * 1000))
+            res["twins"] = {"precondition_sat": r_pre}
+            if r_pre != "sat":
+                res["errors"].append(f"vacuity guard: precondition/contracts not satisfiable ({r_pre})")
         for entry, assume_q, (r, m, secs) in zip(obs, queries, answers):
             label, post = entry[0], entry[1]
             assume = assume_q[:-1]
